@@ -178,6 +178,10 @@ def ref_op(kind, a, b=None):
                 return NOT_ASSERTED
             if a != a or b != b:
                 return NOT_ASSERTED
+            # infinite operands: numpy evaluates x^0.5 as sqrt (sqrt(-inf) is nan, C pow(-inf, 0.5) is +inf); which library
+            # convention applies at infinity is outside the statement
+            if a in (float("inf"), float("-inf")) or b in (float("inf"), float("-inf")):
+                return NOT_ASSERTED
             try:
                 return ("pow", math.pow(a, b))
             except (ValueError, OverflowError, ZeroDivisionError):
